@@ -33,7 +33,7 @@ PROBE_PATHS = ['/r1', '/r2', '/t', '/s/r1', '/s/t', '/s/s/r1', '/s/r2', '/zz']
 PROBE_METHODS = ['GET', 'POST', 'PUT']
 APP_KINDS = ['K0', 'K1', 'K2', 'K3']
 ENTRY_KINDS = ['R1', 'R2', 'T', 'G', 'P']
-FAIL_KINDS = ['unresolved', 'conflict', 'badpattern', 'badmw', 'embedded-2nd']
+FAIL_KINDS = ['unresolved', 'conflict', 'badpattern', 'badmw', 'embedded-2nd', 'badwsgi', 'badwsgi-sig']
 
 
 def deadline_passed():
@@ -163,6 +163,11 @@ class World(object):
             f.marker = marker
             return f
         self.eps = dict((m, ep(m)) for m in ('R1', 'R2', 'T', 'G', 'P', 'F1', 'F2', 'C1'))
+        def boomer():
+            raise ValueError('boom')
+        # an application that takes no part in the history: nothing done to the others may change its behaviour
+        self.bystander = Application([('/boom', boomer)])
+        self.boomer = boomer
         self.R1 = Route('/r1', self.eps['R1'])
         self.R2 = Route('/r2', self.eps['R2'], methods=['POST'])
         self.snap = self.snapshot_routes()
@@ -240,6 +245,14 @@ class World(object):
                     def request(self, request):
                         return None
                 app.add(Route('/b', self.eps['T'], middlewares=[B()]), 1)
+            elif kind in ('badwsgi', 'badwsgi-sig'):
+                # binds cleanly, but the middleware's WSGI wrapper is unusable: add() must raise and change nothing
+                class W(Middleware):
+                    wsgi_wrapper = 5 if kind == 'badwsgi' else staticmethod(lambda inner: (lambda only_one: None))
+                if kind == 'badwsgi':
+                    app.add(Route('/r1', self.eps['T'], middlewares=[W()]), 0)
+                else:
+                    app.add(Route('/t', self.eps['T'], middlewares=[W()]), 0)
             elif kind == 'embedded-2nd':
                 inner = self.Application([('/one', self.eps['F1']), ('/<name>', self.eps['F2'])])
                 app.add(self.SubApplication('/<name>', inner), 0)
@@ -306,6 +319,27 @@ class World(object):
                             bad.append(('probe-status', 'application %d %s %s answered %s, model says %s'
                                         % (i, meth, p, res.status, exp['status'])))
         return bad
+
+
+def check_bystander(w, target):
+    """The application `target` goes through the documented development entry point (debugger on, returning before
+    the server loop).  An application outside the history, and one created afterwards, must still turn an uncaught
+    exception into a 500 response."""
+    bad = []
+    if target is not None:
+        try:
+            target.serve(use_debugger=True, use_reloader=False, use_meta=False, use_static=False, use_lint=False,
+                         _jk_just_testing=True)
+        except Exception as e:
+            bad.append(('serve-raised', 'serve() raised %r' % (e,)))
+    later = w.Application([('/boom', w.boomer)])
+    for name, app in (('bystander', w.bystander), ('later', later)):
+        res = wsgi.call(app, '/boom', 'GET')
+        if res.raised is not None or res.code != 500:
+            bad.append(('isolation-' + name, 'after another application went through serve(), the %s application '
+                        'answered its failing route with %s / raised %r instead of a 500 response'
+                        % (name, res.status, res.raised)))
+    return bad
 
 
 def enabled_ops(w, max_apps):
@@ -387,6 +421,15 @@ def step(acc, history, op):
         acc.violation('C11:%s:%s' % (kind, op[0] if op[0] != 'fail' else 'after-fail-' + op[2]),
                       '%s; history %r then %r' % (msg, history, op), case)
         return None
+    if w.apps:
+        tgt = w.apps[op[1]] if op[0] in ('add', 'fail') else w.apps[-1]
+        digest0 = w.digest()
+        for kind, msg in check_bystander(w, tgt):
+            acc.violation('C11:%s' % kind, '%s; history %r then %r' % (msg, history, op), case)
+            return None
+        if w.digest() != digest0:
+            acc.violation('C11:structure:after-serve', 'serve() changed the routing tables; history %r then %r' % (history, op), case)
+            return None
     if any(e['methods'] for m in w.model for e in m['table']):
         # the probe requests themselves (incl. 405s) must not have changed anything: probe once more
         for kind, msg in w.check():
